@@ -2,6 +2,7 @@ package datagen
 
 import (
 	"fmt"
+	"regexp"
 	"strconv"
 	"time"
 
@@ -77,7 +78,7 @@ func GenMetricDataN(t *rapid.T, maxRecs int, ambiguousLabels bool, variedUnwrap 
 		tp.labels["dur"] = rapid.SampledFrom(durVPool).Draw(t, "dur")
 		templates = append(templates, tp)
 	}
-	if ambiguousLabels && rapid.IntRange(0, 1).Draw(t, "splice-pair") == 0 {
+	if ambiguousLabels && rapid.IntRange(0, 2).Draw(t, "splice-pair") != 0 {
 		// Two label sets whose sorted name/value strings concatenate to the same text.
 		pairs := [][2]map[string]string{
 			{{"a": "bab"}, {"ab": "ab"}},
@@ -102,11 +103,19 @@ func GenMetricDataN(t *rapid.T, maxRecs int, ambiguousLabels bool, variedUnwrap 
 			{{"a": "x\",b=\"y"}, {"a": "x", "b": "y"}},
 			{{"a": "x\", b=\"y"}, {"a": "x", "b": "y"}},
 			{{"a": "x b=y"}, {"a": "x", "b": "y"}},
+			// ... or with a separator byte that "cannot occur in text" (values are arbitrary bytes)
+			{{"a": "x\xffb\xffy"}, {"a": "x", "b": "y"}},
+			{{"a": "x\x00b\x00y"}, {"a": "x", "b": "y"}},
+			{{"a": "x\xfeb\xfey"}, {"a": "x", "b": "y"}},
+			{{"a": "x\x1fb\x1ey"}, {"a": "x", "b": "y"}},
 		}
 		pair := rapid.SampledFrom(pairs).Draw(t, "pair")
 		if rapid.IntRange(0, 2).Draw(t, "spelling-pair") == 0 {
-			// the last six: a value that spells the next pair
-			pair = pairs[len(pairs)-6+rapid.IntRange(0, 5).Draw(t, "spelling-pair-index")]
+			// the last ten: a value that spells the next pair
+			pair = pairs[len(pairs)-10+rapid.IntRange(0, 9).Draw(t, "spelling-pair-index")]
+			if rapid.Bool().Draw(t, "separator-byte-pair") {
+				pair = pairs[len(pairs)-4+rapid.IntRange(0, 3).Draw(t, "separator-byte-index")]
+			}
 		}
 		d.GroupLabels = []string{"a", "ab", "b", "ba"}
 		base := templates[0]
@@ -239,7 +248,11 @@ func GenRange(t *rapid.T, d MetricData, o RangeOpts, unwrap bool) *gen.Metric {
 			pool = []string{"x"}
 		}
 		sortStrings(pool)
-		m.Log.Sel = append(m.Log.Sel, gen.Matcher{Label: l, Op: rapid.SampledFrom([]string{"=", "!=", "=~"}).Draw(t, "selop"), Value: genBS(rapid.SampledFrom(pool).Draw(t, "selval"))})
+		sel := gen.Matcher{Label: l, Op: rapid.SampledFrom([]string{"=", "!=", "=~"}).Draw(t, "selop"), Value: genBS(rapid.SampledFrom(pool).Draw(t, "selval"))}
+		if _, err := regexp.Compile(string(sel.Value)); sel.Op == "=~" && err != nil {
+			sel.Op = "=" // a value that is not a regular expression (not even text) can only be compared
+		}
+		m.Log.Sel = append(m.Log.Sel, sel)
 	}
 	if !o.NoStages && !wide {
 		switch rapid.IntRange(0, 5).Draw(t, "stage") {
